@@ -20,3 +20,4 @@ from . import rows  # noqa: E402,F401
 from . import encode  # noqa: E402,F401
 from . import flows  # noqa: E402,F401
 from . import streams  # noqa: E402,F401
+from . import decode  # noqa: E402,F401
